@@ -186,6 +186,8 @@ type appCase struct {
 	Files map[string]string `json:"files"`
 	Env   map[string]string `json:"env,omitempty"`
 	TZ    int               `json:"tz_offset_s,omitempty"` // time.Local = FixedZone(offset)
+	// TZName: time.Local = the named zone of the tz database (zones with daylight-saving rules); takes precedence over TZ
+	TZName string `json:"tz_name,omitempty"`
 	Mod   func(a *cli.App)  `json:"-"`
 	// SortedMaps: deliver map keys in sorted order. By default (no explorer-installed
 	// order) every ranged map is delivered in REVERSE sorted order, so that a report
@@ -213,6 +215,9 @@ func (c appCase) shell() string {
 	for k, v := range c.Env {
 		sb.WriteString(fmt.Sprintf("%s=%s ", k, shQuote(v)))
 	}
+	if c.TZName != "" {
+		sb.WriteString("TZ=" + c.TZName + " ")
+	}
 	sb.WriteString("hranoprovod-cli")
 	for _, a := range c.Args {
 		sb.WriteString(" " + shQuote(a))
@@ -235,7 +240,13 @@ func runApp(c appCase) (res AppRun) {
 		os.Setenv(k, v)
 	}
 	oldLocal := time.Local
-	if c.TZ != 0 {
+	if c.TZName != "" {
+		loc, err := time.LoadLocation(c.TZName)
+		if err != nil {
+			fatalHarness("time zone %s: %v (callers test zoneAvailable first)", c.TZName, err)
+		}
+		time.Local = loc
+	} else if c.TZ != 0 {
 		time.Local = time.FixedZone(fmt.Sprintf("TZ%+d", c.TZ), c.TZ)
 	} else {
 		time.Local = time.UTC
@@ -287,6 +298,12 @@ func runApp(c appCase) (res AppRun) {
 	return res
 }
 
+// zoneAvailable: the named zone can be loaded in-process.
+func zoneAvailable(name string) bool {
+	_, err := time.LoadLocation(name)
+	return err == nil
+}
+
 // tzName maps a fixed offset to an IANA name the real binary can be given through TZ.
 func tzName(offset int) (string, bool) {
 	if offset == 0 {
@@ -317,6 +334,10 @@ func (w *Worker) confirmRuns() (string, int) {
 			continue // patched application object: not reproducible on the binary
 		}
 		tz, ok := tzName(e.c.TZ)
+		if e.c.TZName != "" {
+			_, err := os.Stat("/usr/share/zoneinfo/" + e.c.TZName)
+			tz, ok = e.c.TZName, err == nil
+		}
 		if !ok {
 			continue
 		}
